@@ -23,6 +23,18 @@ Proof.
   - specialize (IHForall (S k) q1). rewrite E2 in IHForall. exact IHForall.
 Qed.
 
+Lemma erase_loc_sub : forall (g : nat -> nat -> expr -> pos -> expr * pos) xs,
+    Forall (fun x => forall k cx q, erase (fst (g k cx x q)) = erase x) xs ->
+    forall k prev q, map erase (fst (loc_sub g k prev xs q)) = map erase xs.
+Proof.
+  induction 1; intros k prev q; cbn [loc_sub map]; auto.
+  destruct (g k (factor_ctx prev x) x q) as [x' q1] eqn:E1.
+  destruct (loc_sub g (S k) (factor_open (factor_ctx prev x) x) l q1) as [rs q2] eqn:E2.
+  cbn [fst map]. f_equal.
+  - specialize (H k (factor_ctx prev x) q). rewrite E1 in H. exact H.
+  - specialize (IHForall (S k) (factor_open (factor_ctx prev x) x) q1). rewrite E2 in IHForall. exact IHForall.
+Qed.
+
 Definition EraseQ (e : expr) : Prop :=
   (forall c lay ctx p, erase (fst (loc c lay ctx e p)) = erase e)
   /\ match e with
@@ -71,9 +83,9 @@ Proof.
     all: try (specialize (IH cf (sub lay 0) 5%nat pb);
               match goal with |- context [loc ?a ?b 5 ?x ?d] => destruct (loc a b 5 x d) as [r' p1] end;
               cbn [fst erase] in *; rewrite IH; reflexivity).
-    destruct (loc_list _ _ 0 children pb) as [cs' p1] eqn:E. cbn [fst erase]. f_equal. f_equal.
-    pose proof (erase_loc_list (fun k x q => loc cf (sub (sub lay 0) k) 5 x q) (fun _ q => q) children) as X.
-    rewrite <- (X ltac:(eapply Forall_impl; [|exact IHfs]; cbn beta; intros a Ha k q; apply Ha) 0%nat pb). rewrite E. reflexivity.
+    destruct (loc_sub _ 0 false children pb) as [cs' p1] eqn:E. cbn [fst erase]. f_equal. f_equal.
+    pose proof (erase_loc_sub (fun k cx x q => loc cf (sub (sub lay 0) k) cx x q) children) as X.
+    rewrite <- (X ltac:(eapply Forall_impl; [|exact IHfs]; cbn beta; intros a Ha k cx q; apply Ha) 0%nat false pb). rewrite E. reflexivity.
 Qed.
 
 Theorem erase_loc : forall c lay ctx e p, erase (fst (loc c lay ctx e p)) = erase e.
